@@ -1,5 +1,8 @@
 import OjgVerif.Props.C13b
 import OjgVerif.JPMut.LemmasDescent
+import OjgVerif.JPMut.LemmasDescentRem
+import OjgVerif.JPMut.LemmasDescentOne
+import OjgVerif.JPMut.LemmasDescentOneSet
 /-! # C13, continued: Modify through a recursive descent
 
 Round 3. The exactness theorems of Props/C13.lean / C13b.lean exclude every path with a descent. Here: paths with ONE
@@ -108,10 +111,137 @@ theorem remove_descent_current (pre rest : List Frag) (f : Frag) (m : Modifier) 
   remove_descent Dev.current rfl pre rest f m hm hf (fun c => remGood_incl f c hf) hp hne hnd hnf d hw
     (goodPre_noUnion rest hnd hu2 pre hp hu1 d)
 
+/-- REMOVE THROUGH ONE DESCENT = THE SPECIFICATION: with, in addition, a last fragment that is not a filter and `GoodPre` for
+`rest ++ [f]` too, the tree `remove_descent` describes IS `removeSpecG σ x d` = `remAll` at exactly the locations the full
+path selects (removals below a node lie too deep to change what `rest ++ [f]` selects from it: `remAll_shape`; deeper
+removals followed by shallower ones compose: `remAll_seq`; `upd_rem_desc` by mutual structural induction over the tree) -/
+theorem remove_descent_spec (dev : Dev) (hsib : dev.descentSiblings = false) (pre rest : List Frag) (f : Frag) (m : Modifier)
+    (hm : removeAllOf dev f = some m) (hf : isDescentF f = false) (hff : isFilterF f = false) (hrg : ∀ c, RemGood σ dev f c)
+    (hp : NoDescent pre) (hne : rest ≠ []) (hnd : NoDescent rest) (hnf : NoFilter rest) (d : JV) (hw : WF d)
+    (hg : GoodPre σ dev rest pre d) (hg' : GoodPre σ dev (rest ++ [f]) pre d) :
+    removeM false dev false (pre ++ .descent :: rest ++ [f]) d = .ok (removeSpecG σ (pre ++ .descent :: rest ++ [f]) d) :=
+  removeM_descent_spec dev hsib pre rest f m hm hf hff hrg hp hne hnd hnf d hw hg hg'
+
+/-- the code as it is, no union in the path: Remove through one descent leaves exactly `removeSpecG inclIdx x d`, for EVERY
+data tree with unique member names; no error -/
+theorem remove_descent_spec_current (pre rest : List Frag) (f : Frag) (hf : isDescentF f = false) (hff : isFilterF f = false)
+    (hp : NoDescent pre) (hne : rest ≠ []) (hnd : NoDescent rest) (hnf : NoFilter rest)
+    (hu1 : NoUnion pre) (hu2 : NoUnion (rest ++ [f])) (d : JV) (hw : WF d) :
+    removeM false Dev.current false (pre ++ .descent :: rest ++ [f]) d =
+      .ok (removeSpecG inclIdx (pre ++ .descent :: rest ++ [f]) d) := by
+  obtain ⟨m, hm⟩ : ∃ m, removeAllOf Dev.current f = some m := by
+    cases f <;> simp_all [removeAllOf, isDescentF]
+  have hu2' : NoUnion rest := fun g hg => hu2 g (List.mem_append_left _ hg)
+  exact remove_descent_spec Dev.current rfl pre rest f m hm hf hff (fun c => remGood_incl f c hf) hp hne hnd hnf d hw
+    (goodPre_noUnion rest hnd hu2' pre hp hu1 d)
+    (goodPre_noUnion (rest ++ [f]) (noDescent_snoc rest f hnd hf) hu2 pre hp hu1 d)
+
 /-- `Remove $..b.a` on `{"b":{"a":1,"b":{"a":2,"c":3}}}`: both `a` below a `b` go -/
 example : removeM false Dev.current false [.descent, .child kB, .child kA]
       (.obj [(kB, .obj [(kA, .int 1), (kB, .obj [(kA, .int 2), ([99], .int 3)])])]) =
     .ok (.obj [(kB, .obj [(kB, .obj [([99], .int 3)])])]) := by rfl
+
+/-- and that is the specification's tree -/
+example : removeSpecG inclIdx [.descent, .child kB, .child kA] (.obj [(kB, .obj [(kA, .int 1), (kB, .obj [(kA, .int 2), ([99], .int 3)])])]) =
+    .obj [(kB, .obj [(kB, .obj [([99], .int 3)])])] := by rfl
+
+/-- MODIFYONE THROUGH ONE DESCENT (simple data; `rest` non-empty without a further descent — filters ARE allowed: a One form has
+edited nothing before its single edit): no error; the returned tree is `updAll m.eff [p] d` for ONE location `p` the path
+selects (`JPath.eval` with its descent clause) at which the modifier reports a change — the first the work-list meets
+(members' subtrees before the node) —, or the input itself when no selected location wants a change; hence the property's
+demand on a One form (`OneOKG`) -/
+theorem one_modify_descent (dev : Dev) (hsib : dev.descentSiblings = false) (m : Modifier) (hfm : dev.filterMapNil = false)
+    (pre rest : List Frag) (hp : NoDescent pre) (hne : rest ≠ []) (hnd : NoDescent rest) (d : JV) (hw : WF d)
+    (hg : GoodPre σ dev rest pre d) :
+    ∃ d', modifyM false dev true m (pre ++ .descent :: rest) d = .ok d' ∧ ModOneOut σ m (pre ++ .descent :: rest) d d' ∧
+      OneOKG σ (pre ++ .descent :: rest) d d' (.mod m) := by
+  obtain ⟨d', h1, h2⟩ := modifyOne_descent (σ := σ) dev hsib m hfm pre rest hp hne hnd d hw hg
+  exact ⟨d', h1, h2, oneOKG_of_modOneOut m _ d d' hw h2⟩
+
+/-- the code as it is, a path without unions -/
+theorem one_modify_descent_current (m : Modifier) (pre rest : List Frag) (hp : NoDescent pre) (hne : rest ≠ []) (hnd : NoDescent rest)
+    (hu1 : NoUnion pre) (hu2 : NoUnion rest) (d : JV) (hw : WF d) :
+    ∃ d', modifyM false Dev.current true m (pre ++ .descent :: rest) d = .ok d' ∧
+      OneOKG inclIdx (pre ++ .descent :: rest) d d' (.mod m) := by
+  obtain ⟨d', h1, _, h3⟩ := one_modify_descent (σ := inclIdx) Dev.current rfl m rfl pre rest hp hne hnd d hw
+    (goodPre_noUnion rest hnd hu2 pre hp hu1 d)
+  exact ⟨d', h1, h3⟩
+
+/-- REMOVEONE THROUGH ONE DESCENT (simple data; `rest` non-empty without a further descent; any last fragment but a descent,
+filters included): no error; the returned tree is `remAll [q] d` for ONE location `q` the full path selects, or the input
+itself when it selects nothing -/
+theorem one_remove_descent (dev : Dev) (hsib : dev.descentSiblings = false) (hfm : dev.filterMapNil = false) (pre rest : List Frag)
+    (f : Frag) (hf : isDescentF f = false) (hrg : ∀ c, RemGood σ dev f c) (hp : NoDescent pre) (hne : rest ≠ [])
+    (hnd : NoDescent rest) (d : JV) (hw : WF d) (hg : GoodPre σ dev rest pre d) :
+    ∃ d', removeM false dev true (pre ++ .descent :: rest ++ [f]) d = .ok d' ∧
+      OneOKG σ (pre ++ .descent :: rest ++ [f]) d d' .rem :=
+  removeOne_descent dev hsib hfm pre rest f hf hrg hp hne hnd d hw hg
+
+/-- the code as it is, no union before the last fragment -/
+theorem one_remove_descent_current (pre rest : List Frag) (f : Frag) (hf : isDescentF f = false) (hp : NoDescent pre) (hne : rest ≠ [])
+    (hnd : NoDescent rest) (hu1 : NoUnion pre) (hu2 : NoUnion rest) (d : JV) (hw : WF d) :
+    ∃ d', removeM false Dev.current true (pre ++ .descent :: rest ++ [f]) d = .ok d' ∧
+      OneOKG inclIdx (pre ++ .descent :: rest ++ [f]) d d' .rem :=
+  one_remove_descent Dev.current rfl rfl pre rest f hf (fun c => remGood_incl f c hf) hp hne hnd d hw
+    (goodPre_noUnion rest hnd hu2 pre hp hu1 d)
+
+/-- SETONE / DELONE THROUGH ONE DESCENT (simple data; `delOneAbsent`, `descentSiblings` off; `rest` non-empty without a further
+descent): when no error is reported the data is the input with the value written (the member deleted, the element null) at ONE
+location the path selects, or (Set) with ONE member created, or the input itself — that only when nothing is selected and
+nothing is to be created -/
+theorem one_set_descent (dev : Dev) (hsib : dev.descentSiblings = false) (hda : dev.delOneAbsent = false) (a : SetArg)
+    (pre rest : List Frag) (hp : NoDescent pre) (hne : rest ≠ []) (hnd : NoDescent rest) (d d' : JV) (hw : WF d)
+    (hg : GoodPreS σ dev rest pre d) (h : setM false dev true a (pre ++ .descent :: rest) d = .ok d') :
+    OneOKG σ (pre ++ .descent :: rest) d d' a.op :=
+  setOne_descent dev hsib hda a pre rest hp hne hnd d d' hw hg h
+
+theorem goodPathS_noUnion : ∀ (x : List Frag), NoDescent x → NoUnion x → ∀ (d : JV), GoodPathS inclIdx Dev.current x d
+  | [], _, _, _ => trivial
+  | f :: r, hnd, hnu, d =>
+    ⟨goodAtS_incl f d (hnd f (by simp)) (fun ms h => absurd h (hnu f (by simp) ms)),
+     fun m _ => goodPathS_noUnion r (fun g hg => hnd g (List.mem_cons_of_mem _ hg)) (fun g hg => hnu g (List.mem_cons_of_mem _ hg)) m.2⟩
+
+mutual
+  theorem goodDS_noUnion (rest : List Frag) (hnd : NoDescent rest) (hnu : NoUnion rest) : ∀ (d : JV), GoodDS inclIdx Dev.current rest d
+    | .arr xs => ⟨goodPathS_noUnion rest hnd hnu _, goodDSL_noUnion rest hnd hnu xs⟩
+    | .obj kvs => ⟨goodPathS_noUnion rest hnd hnu _, goodDSK_noUnion rest hnd hnu kvs⟩
+    | .null => trivial
+    | .bool _ => trivial
+    | .int _ => trivial
+    | .flt _ => trivial
+    | .big _ => trivial
+    | .num _ => trivial
+    | .str _ => trivial
+  theorem goodDSL_noUnion (rest : List Frag) (hnd : NoDescent rest) (hnu : NoUnion rest) : ∀ (xs : List JV), GoodDSL inclIdx Dev.current rest xs
+    | [] => trivial
+    | x :: r => ⟨goodDS_noUnion rest hnd hnu x, goodDSL_noUnion rest hnd hnu r⟩
+  theorem goodDSK_noUnion (rest : List Frag) (hnd : NoDescent rest) (hnu : NoUnion rest) : ∀ (kvs : List (Bytes × JV)),
+      GoodDSK inclIdx Dev.current rest kvs
+    | [] => trivial
+    | m :: r => ⟨goodDS_noUnion rest hnd hnu m.2, goodDSK_noUnion rest hnd hnu r⟩
+end
+
+theorem goodPreS_noUnion (rest : List Frag) (hnd : NoDescent rest) (hnu : NoUnion rest) : ∀ (pre : List Frag), NoDescent pre → NoUnion pre →
+    ∀ (d : JV), GoodPreS inclIdx Dev.current rest pre d
+  | [], _, _, d => goodDS_noUnion rest hnd hnu d
+  | f :: p, hp, hu, d =>
+    ⟨goodAtS_incl f d (hp f (by simp)) (fun ms h => absurd h (hu f (by simp) ms)),
+     fun m _ => goodPreS_noUnion rest hnd hnu p (fun g hg => hp g (List.mem_cons_of_mem _ hg)) (fun g hg => hu g (List.mem_cons_of_mem _ hg)) m.2⟩
+
+/-- the code as it is, a path without unions -/
+theorem one_set_descent_current (a : SetArg) (pre rest : List Frag) (hp : NoDescent pre) (hne : rest ≠ []) (hnd : NoDescent rest)
+    (hu1 : NoUnion pre) (hu2 : NoUnion rest) (d d' : JV) (hw : WF d)
+    (h : setM false Dev.current true a (pre ++ .descent :: rest) d = .ok d') :
+    OneOKG inclIdx (pre ++ .descent :: rest) d d' a.op :=
+  one_set_descent Dev.current rfl rfl a pre rest hp hne hnd d d' hw (goodPreS_noUnion rest hnd hu2 pre hp hu1 d) h
+
+/-- `SetOne $..a` with 9 on `{"b":{"a":2},"a":1}`: the member's subtree first — `$.b.a` is written -/
+example : setM false Dev.current true (.val (.int 9)) [.descent, .child kA] (.obj [(kB, .obj [(kA, .int 2)]), (kA, .int 1)]) =
+    .ok (.obj [(kB, .obj [(kA, .int 9)]), (kA, .int 1)]) := by rfl
+
+/-- `ModifyOne $..a` with `inc` on `{"a":1,"b":{"a":2}}`: the member's subtree first — `$.b.a` is the one edited -/
+example : modifyM false Dev.current true inc [.descent, .child kA] (.obj [(kA, .int 1), (kB, .obj [(kA, .int 2)])]) =
+    .ok (.obj [(kA, .int 1), (kB, .obj [(kA, .int 3)])]) := by rfl
 
 /-- `inc` returns well-formed values -/
 theorem inc_wf : ∀ c, WF c → WF (inc.eff c) := by
